@@ -76,6 +76,20 @@ def cases(tier, rng):
         if rng.random() < 0.25:
             tz = float(rng.uniform(0, 1))
             ob["TargetDIS"] = "proton"  # weights are stated for the proton; targets are C12's business
+        if i % 6 == 4:
+            # the LO order of a higher-order run is the same parton-model expression (weights chosen in branches that depend on the
+            # requested order are only reached this way); fewer observables and one point to keep the NNLO/N3LO convolutions cheap
+            th["PTO"] = int(cards.pick(rng, [1, 2, 3, 3]))
+            if th["PTO"] == 3 and scheme in ("FFNS", "FONLL-FFNS"):
+                th["PTO"] = 2
+            kinds = [["F2", "FL", "F3"][int(j)] for j in rng.choice(3, size=2, replace=False)]  # (polarised kinds stop at NNLO / lack the massive high-Q2 range)
+            heav = ["total", "light", "charm", "bottom"] if rng.random() < 0.5 else ["total", cards.pick(rng, ["charm", "bottom", "top"])]
+            pts = pts[:1]
+            if len(xg) > 12:
+                xg = cards.grid(int(rng.integers(4, 7)), int(rng.integers(3, 5)), x_min=cards.logu(rng, 1e-4, 1e-2))
+                deg = min(deg, 3)
+                k = int(rng.integers(0, len(xg) - 1))
+                pts = [dict(x=xg[k], Q2=pts[0]["Q2"], cls="node", k=k)]
         out.append(dict(id=f"c02-{i}", theory=th, obs=ob, xgrid=xg, deg=deg, is_log=is_log, points=pts, kinds=kinds, heavyness=heav))
     return out
 
